@@ -315,6 +315,10 @@ def check_spw(ctx, centre, bw, n, side, via_width=False):
             got = [exact(v) for v in s.channel_freqs]
         except IndexError:
             s = got = None
+        except Exception as e:
+            ctx.disagree('what=subrange;symptom=exception:%s' % type(e).__name__, dict(case, first=f, last=l), repr(e)[:200],
+                         None, 'subrange(first,last) raised something else than IndexError')
+            continue
         valid = (0 <= f < l <= n)
         want = want0[f:l] if valid else None
         if got != want or (s is not None and (exact(s.channel_width) != cw0 or s.num_chans != l - f
@@ -603,6 +607,7 @@ def check_preselect_validation(ctx):
             paths = list(ext.PATHS) if rng.random() < 0.25 else rng.sample(ext.PATHS, 2)
             ext.check_paths(ctx, x, rdb, pre, paths)
         ext.check_paths(ctx, x, rdb, None, ['direct', 'meta', 'open', 'list', 'given'])
+        ext.check_other_format(ctx)
         for _ in range(ctx.scale(40, 400)):
             pre = {}
             for k in rng.sample(KEY_POOL + ['dumps', 'channels'] * 6, rng.randint(1, 3)):
@@ -670,6 +675,17 @@ def run_extension(ctx):
         for _k in range(T):
             gaps.append(gaps[-1] + rng.choice([0.5, 1.0, 2.0, 2.5, 8.0, 0.25]))
         sl = (0, T) if rng.random() < 0.4 else gen_slice(rng, T)
+        if rng.random() < 0.35 and T >= 2:
+            # the capture straddles its fix date: dump 0 just before it, dump 1 on or after it, dump 0 not preselected
+            delta = rng.choice([0.25, 0.5, 1.0])
+            t = dict(t, cbf=t['cbf'] or 0.5)
+            t['sync'] = fix_date_of(t) - delta - t['off'] - t['first']
+            gaps = [0.0] + [max(g, delta) for g in gaps[1:]]
+            for k in range(1, len(gaps)):
+                gaps[k] = max(gaps[k], gaps[k - 1] + 0.25)
+            a = rng.randint(1, T - 1)
+            sl = (a, rng.choice([None, T, rng.randint(a + 1, T)]))
+            ctx.count('given:straddles_fix_date')
         ext.check_given(ctx, me, t, T, gaps, sl, with_store=rng.random() < 0.4)
     # named windows
     for _ in range(ctx.scale(60, 600)):
@@ -742,6 +758,8 @@ def replay(ctx, doc):
         ext.check_v4_names(ctx, me, case['timing'], case['sub_band'], case['sub_product'])
     elif 'n' in case and 'start' in case:
         ext.check_indices(ctx)
+    elif case.get('other_format'):
+        ext.check_other_format(ctx)
     elif 'paths' in case:
         x = build(gen_timing(ctx.rng), 4, 4, ctx.seed)
         try:
